@@ -161,6 +161,39 @@ def _main_check(ctx: Ctx) -> None:
         ctx.check(bool(use), "ST1", "event times are shifted by adding the carried clock", function=fe.qualname, construct="shift not added to event times",
                   message="", file=fe.file, node=loop)
 
+    # ---- SNAP: apart from the time origin (the shift), nothing the event loop does depends on a *snapshot* of the running state
+    # taken when the call started -- a local computed before the loop from the state dictionary (or from restored variables)
+    # and never updated in the loop.  Such a value differs with the place where the piece was cut into calls, so a decision
+    # taken from it makes bar-by-bar tokenisation differ from the whole piece.
+    state_derived = set(restored)
+    order = [s_ for s_ in fe.node.body if s_.lineno < loop.lineno]
+    changed = True
+    while changed:
+        changed = False
+        for s_ in order:
+            if isinstance(s_, ast.Assign):
+                names = {n.id for t in s_.targets for n in ast.walk(t) if isinstance(n, ast.Name)}
+                reads = {n.id for n in ast.walk(s_.value) if isinstance(n, ast.Name)}
+                if (reads & (state_derived | {sd})) and not names <= state_derived:
+                    state_derived |= names
+                    changed = True
+    snaps = sorted(v for v in state_derived if v not in written and v not in shift and v != sd)
+    n_snap_reads = 0
+    for v in snaps:
+        uses = []
+        for r in region:
+            for n in ast.walk(r):
+                if isinstance(n, ast.Name) and n.id == v and isinstance(n.ctx, ast.Load):
+                    if any(isinstance(a, ast.Call) and "LOGGER" in src(a.func).upper() for a in ancestors(n)):
+                        continue
+                    uses.append(n)
+        n_snap_reads += len(uses)
+        ctx.check(not uses, "SNAP", f"tokenise: `{v}` (the running state as it was when the call started) is not read by the event loop", function=fe.qualname,
+                  construct="the event loop reads a call-start snapshot of the running state",
+                  message=f"`{v}` is computed before the loop from the carried state and never updated, yet read at line(s) {sorted({u.lineno for u in uses})[:4]}: "
+                          f"what the loop does then depends on where the piece was cut into calls", file=fe.file, node=uses[0] if uses else fe.node)
+    ctx.ok("SNAP", f"tokenise: call-start snapshots of the running state: {snaps or 'none'}; only the time origin `{shift[0] if shift else '?'}` is read in the loop")
+
     # ---- ST2 defaults vs detokenise's initial clock
     dinit = {}
     for s in fd.node.body:
